@@ -12,20 +12,57 @@
 (***************************************************************************)
 EXTENDS MC_Engine, Json
 
-VARIABLE hist
-varsE == <<vars, hist>>
+VARIABLES hist, claim, trimmedE
+varsE == <<vars, hist, claim, trimmedE>>
+\* claim: under a lifespan the specification only speaks while C15's look-back precondition has held at
+\* every append (Props!SurvOK for every registered indicator); the replay stops at the first call that
+\* is outside it (a window shorter than an indicator's look-back is not something a property describes)
+
+\* the wide instance used for replay (simulation only: no state graph is built, so the menu, the
+\* streams and the programs can be much larger than in the exhaustive MC_Engine configurations)
+CfgM(kind, name, p, p2, p3, m) == [Cfg(kind, name, p, p2, p3) EXCEPT !.m = m]
+MenuWide == << Cfg("EMA", "EMA_2", 2, 0, 0), Cfg("SMA", "SMA_3", 3, 0, 0), Cfg("ATR", "ATR_2", 2, 0, 0),
+               Cfg("RSI", "RSI_2", 2, 0, 0), Cfg("STOCH", "STOCH_2", 2, 2, 2), Cfg("OBV", "OBV", 0, 0, 0),
+               Cfg("KC", "KC_2", 2, 0, 0), Cfg("MACD", "MACD_2_3_2", 2, 3, 2),
+               CfgM("Supertrend", "ST_2", 2, 0, 0, <<3, 1>>), Cfg("WMA", "WMA_3", 3, 0, 0),
+               Cfg("RMA", "RMA_2", 2, 0, 0), Cfg("DONCHIAN", "DON_2", 2, 0, 0), Cfg("HL", "HL_3", 3, 0, 0),
+               Cfg("VWAP", "VWAP_x", 0, 0, 0), Cfg("ROC", "ROC_2", 2, 0, 0), Cfg("AROON", "AROON_3", 3, 0, 0),
+               Cfg("TR", "TR", 0, 0, 0), Cfg("HLA", "HLA", 0, 0, 0), Cfg("VWMA", "VWMA_2", 2, 0, 0) >>
+PairsWide == {pr \in (1..Len(MenuWide)) \X (1..Len(MenuWide)) : pr[1] # pr[2]}
+SymWide == << <<10, 12, 9, 11, 2>>, <<14, 14, 8, 9, 3>>, <<11, 11, 11, 11, 0>>, <<9, 13, 9, 13, 1>>,
+              <<12, 12, 7, 8, 4>>, <<13, 15, 12, 14, 0>> >>
+MCfgsWide == {MkCfg(0, FALSE, -1, FALSE), MkCfg(TF, FALSE, -1, FALSE), MkCfg(TF, TRUE, -1, FALSE),
+              MkCfg(0, FALSE, 5, FALSE), MkCfg(TF, FALSE, 9, FALSE), MkCfg(0, FALSE, -1, TRUE),
+              MkCfg(TF, FALSE, -1, TRUE)}
+ChunkWide == 2
 
 Snap(cs) == [i \in 1..Len(cs) |->
                [ts |-> cs[i].ts, o |-> cs[i].o, h |-> cs[i].h, l |-> cs[i].l, c |-> cs[i].c, v |-> cs[i].v,
                 ind |-> cs[i].ind, sub |-> cs[i].sub]]
 
-InitE == Init /\ hist = <<>>
-NextE == Next /\ hist' = Append(hist, [op |-> last'.op, n |-> last'.n, i |-> last'.i, raw |-> Len(raw'),
-                                       reg |-> reg', cs |-> Snap(st'.cs)])
+DroppedE(pre, post) ==
+  IF pre = <<>> THEN 0
+  ELSE IF post = <<>> THEN Len(pre)
+  ELSE Cardinality({i \in 1..Len(pre) : pre[i].ts < post[1].ts})
+
+InitE == Init /\ hist = <<>> /\ claim = TRUE /\ trimmedE = FALSE
+NextE ==
+  /\ Next
+  /\ LET isApp == last'.op = "append"
+         m     == MgrAppend(st.cs, SubSeq(raw', Len(raw) + 1, Len(raw')), mcfg)
+         dr    == IF isApp THEN DroppedE(st.cs, m.cs) ELSE 0
+         ok    == (isApp /\ mcfg.life >= 0 /\ (trimmedE \/ dr > 0))
+                     => \A k \in 1..Len(reg) : SurvOK(Menu[reg[k]], st.cs, m.cs, dr)
+     IN /\ trimmedE' = (trimmedE \/ dr > 0)
+        /\ claim' = (claim /\ ok)
+        /\ hist' = Append(hist, [op |-> last'.op, n |-> last'.n, i |-> last'.i, raw |-> Len(raw'),
+                                 reg |-> reg', cs |-> Snap(st'.cs), claim |-> claim /\ ok])
 SpecE == InitE /\ [][NextE]_varsE
 
 Terminal == Len(raw) = MaxLen /\ nops = MaxOps
 Emit == Terminal =>
   PrintT("EMIT " \o ToJson([cfg |-> mcfg, raw |-> Snap(raw), hist |-> hist,
-                            names |-> [k \in 1..Len(Menu) |-> Menu[k].name]]))
+                            menu |-> [k \in 1..Len(Menu) |->
+                                        [name |-> Menu[k].name, kind |-> Menu[k].kind, p |-> Menu[k].p,
+                                         p2 |-> Menu[k].p2, p3 |-> Menu[k].p3]]]))
 =============================================================================
